@@ -97,8 +97,8 @@ def gen_unit(rng):
         recs = list(recs)
         for _ in range(rng.randint(1, 3)):
             recs.insert(rng.randint(0, len(recs)), rng.choice(["dir\\", "a\\\\", "q\\\"", "\\", "x", 5, None, "{", "tail\\"]))
-    return {"prefix": recs, "args": args, "pattern": pat, "S": S, "T": T, "transport": rng.choice(["stdin", "stdin", "fifo", "file+fifo", "dir+fifo"]),
-            "mode": mode, "sep": sep, "file_parts": rng.choice((len(recs), rng.randint(0, len(recs))))}
+    return {"prefix": recs, "args": args, "pattern": pat, "S": S, "T": T, "transport": rng.choice(["stdin", "stdin", "fifo", "file+fifo", "dir+fifo", "file+idle-fifo"]),
+            "mode": mode, "sep": sep, "trigger": mode == "qualifying" and rng.random() < 0.004, "file_parts": rng.choice((len(recs), rng.randint(0, len(recs))))}
 
 
 def run_unit(ctx, unit):
@@ -154,11 +154,24 @@ def run_unit(ctx, unit):
     tail_len = len(TAIL_PRE) + 12 + len(TAIL_POST)
     cap = len(prefix) + CAP_EXTRA
     largs = unit["args"] + ["--skip", str(S), "--take", str(T)]
+    if unit.get("trigger"):
+        # a process started with `trigger` is not waited for ("trigger a process and return its PID"): the run ends while it lives
+        trig = "(number? (trigger \"sleep\" \"70\"))"
+        if "--filter" in largs:
+            i = largs.index("--filter")
+            largs = largs[:i + 1] + ["(and %s %s)" % (largs[i + 1], trig)] + largs[i + 2:]
+        else:
+            largs = largs + ["--filter", trig]
     in_file = 0
     if unit["transport"] == "stdin":
         case = core.Case(largs, endless=(prefix, TAIL_PRE_U, TAIL_POST, cap), watchdog_ms=30000)
     elif unit["transport"] == "fifo":
         case = core.Case(largs + ["@D@/endless.fifo"], efifos=[("endless.fifo", prefix, TAIL_PRE_U, TAIL_POST, cap)], watchdog_ms=30000)
+    elif unit["transport"] == "file+idle-fifo" and (T == 0 or deciding <= len(parts)):
+        # every wanted row lies in an ordinary file; the next input is a FIFO nobody writes to (opening it would block for
+        # ever): it must be left alone
+        in_file = len(prefix)
+        case = core.Case(["@D@/first.json", "@D@/idle.fifo"] + largs, files=[("first.json", prefix)], fifos=["idle.fifo"], watchdog_ms=30000)
     else:
         # the first records in an ordinary file, the rest and the endless tail in a FIFO given as the second input
         k = min(unit.get("file_parts", 0), len(parts))
@@ -189,7 +202,13 @@ def run_unit(ctx, unit):
     if o.result != "ok":
         bad("result:" + o.result, "run on endless input did not succeed: %s %s %s" % (o.result, o.errtext, o.panicinfo))
         return
-    if unit["transport"] == "stdin":
+    if case.fifos:
+        st.count("idle_fifo_runs")
+        if o.fifo and o.fifo[0]:
+            bad("opened-unneeded-input", "all %d wanted rows come from the first file, yet the following input (a FIFO without a writer) was opened" % need)
+            return
+        pulled, capped, slack = 0, False, SLACK
+    elif unit["transport"] == "stdin":
         pulled, capped = o.pulled, o.cap_hit
         slack = SLACK
     else:
@@ -217,6 +236,8 @@ def run_unit(ctx, unit):
     st.count("overshoot_le_1" if over <= 1 else "overshoot_gt_1")
     st.see("nontrivial", (tuple(unit["pattern"]), S, T, unit["transport"]))
     st.count("mode_" + unit.get("mode", "qualifying"))
+    if unit.get("trigger"):
+        st.count("runs_with_a_triggered_process_outliving_them")
     st.count("separator_" + {"\n": "lf", " ": "space", "": "none", "\t": "tab", "\r\n": "crlf"}[unit.get("sep", "\n")])
     st.count("bytes_pulled_total", pulled)
 
